@@ -44,6 +44,7 @@ func (r *Run) opBadPut(op *Op) {
 
 	keyBefore := r.observeKey(bucket, key)
 	_, listBefore := r.observeListing(bucket)
+	groupedBefore := r.observeGrouped(bucket)
 	var upsBefore []string
 	if b.HadUpload {
 		upsBefore = r.observeUploads(bucket)
@@ -181,6 +182,9 @@ func (r *Run) opBadPut(op *Op) {
 		_, listAfter := r.observeListing(bucket)
 		if strings.Join(listAfter, "\n") != strings.Join(listBefore, "\n") {
 			r.fail(clR, fmt.Sprintf("a rejected upload (%s) changed the bucket listing %s", mustRejectOr(mustReject, "server's choice"), r.bctx()), fmt.Sprint(listBefore), fmt.Sprint(listAfter))
+		}
+		if g := r.observeGrouped(bucket); g != groupedBefore {
+			r.fail(clR, fmt.Sprintf("a rejected upload (%s) changed the bucket's delimited listing %s", mustRejectOr(mustReject, "server's choice"), r.bctx()), groupedBefore, g)
 		}
 		if b.HadUpload {
 			if upsAfter := r.observeUploads(bucket); strings.Join(upsAfter, "\n") != strings.Join(upsBefore, "\n") {
